@@ -26,13 +26,20 @@ def main():
         if want and not any(p in want for p in props): continue
         if only and only != name: continue
         muts.append((name, d, props))
+    benign = []
+    for d in sorted(glob.glob(f"{VERIF}/selftest/benign/*.patch")):
+        name = os.path.basename(d)[:-6]
+        props = [name.split("_")[0]]
+        if want and not any(p in want for p in props): continue
+        if only and only != name: continue
+        benign.append((name, d, props))
     scratch = tempfile.mkdtemp(prefix="govc-self-", dir="/var/tmp")
     copy = os.path.join(scratch, "repo")
     try:
         run(["rsync", "-a", "--exclude", ".git", "/repo/", copy + "/"])
         env = dict(os.environ, GOVC_REPO=copy)
         results = []
-        props_seen = sorted({p for _,_,ps in muts for p in ps})
+        props_seen = sorted({p for _,_,ps in muts + benign for p in ps})
         for p in props_seen:
             t0 = time.time()
             r = run([f"{VERIF}/bin/govc", "check", p, "--tier", "quick", "--evidence-dir", os.path.join(scratch, "ev")], env=env, cwd=VERIF)
@@ -62,6 +69,19 @@ def main():
                 else:
                     print(r.stdout[-1500:], r.stderr[-800:])
                 results.append((name+"/"+p, caught))
+            run(["patch", "-R", "-p1", "--no-backup-if-mismatch", "-i", patch], cwd=copy)
+        # benign edits (refactorings that keep the property): the check must stay quiet
+        for name, patch, ps in benign:
+            a = run(["patch", "-p1", "--no-backup-if-mismatch", "-i", patch], cwd=copy)
+            if a.returncode != 0:
+                print(f"{name}: PATCH DOES NOT APPLY"); results.append((name, False)); continue
+            for p in ps:
+                t0 = time.time()
+                r = run([f"{VERIF}/bin/govc", "check", p, "--tier", "quick", "--evidence-dir", os.path.join(scratch, "ev")], env=env, cwd=VERIF)
+                quiet = r.returncode == 0 and "VIOLATION" not in r.stdout
+                print(f"{name} [{p}] (benign): exit={r.returncode} {'QUIET' if quiet else 'FALSE ALARM'} ({time.time()-t0:.0f}s)")
+                if not quiet: print(r.stdout[-1500:])
+                results.append((name+"/"+p, quiet))
             run(["patch", "-R", "-p1", "--no-backup-if-mismatch", "-i", patch], cwd=copy)
         bad = [n for n, ok in results if not ok]
         print(f"selftest: {len(results)-len(bad)}/{len(results)} as expected" + (f"; NOT as expected: {bad}" if bad else ""))
